@@ -58,6 +58,7 @@ type Ctx struct {
 	CapsHit     []string
 	Exhaustive  bool
 	Extra       map[string]interface{}
+	PartialPath string // workers: violations are also written here as soon as they are found
 }
 
 func NewCtx(prop, tier string, seed int64, shard, nshards int) *Ctx {
@@ -150,6 +151,17 @@ func (c *Ctx) Violate(sig, what string, cs interface{}) {
 		what = what[:600] + "…"
 	}
 	c.Violations[sig] = &Violation{Property: c.Property, Signature: sig, What: what, Case: raw, Count: 1, Shard: c.Shard, NShards: c.NShards, Tier: c.Tier}
+	if c.PartialPath != "" && len(c.Violations) <= 64 {
+		// a worker that is later stopped at its deadline (or dies) must not take what it found with it
+		var vs []*Violation
+		for _, v := range c.Violations {
+			vs = append(vs, v)
+		}
+		if b, err := json.Marshal(vs); err == nil {
+			os.WriteFile(c.PartialPath+".tmp", b, 0o644)
+			os.Rename(c.PartialPath+".tmp", c.PartialPath)
+		}
+	}
 }
 
 // WorkerResult is what a worker hands to the parent.
